@@ -190,3 +190,57 @@ def c_fit(ctx, case):
         ctx.close(ga, gb, "fit_using_array %s == fit(transform) %s" % (name, name), rtol=1e-7,
                   atol=1e-9 * (np.abs(gb).max() + 1e-300))
         ctx.finite(ga, name)
+
+
+def g_lifecycle(draw):
+    from vf.props import c09
+
+    c = c09.g_train(draw)
+    c["jfa"] = gen.boolean(draw)
+    if not c["jfa"]:
+        c["V"] = None
+    r = gen.rng(draw)
+    fa = sut.fa_ref(c)
+    c["z"] = r.normal(0, 1, fa.CF)
+    c["yy"] = r.normal(0, 1, fa.rV) if c["jfa"] else None
+    c["em"] = gen.integer(draw, 1, 2)
+    c["step"] = gen.choice(draw, ["fit", "fit", "ubm", "fit_bag", "inplace_U"])
+    c["probe"] = [gen.fractional_stats(draw, c["ubm"]["C"], c["ubm"]["F"], c["ubm"]["means"], c["ubm"]["variances"], r=r)
+                  for _ in range(gen.integer(draw, 1, 3))]
+    return c
+
+
+@REG.obligation("scores_follow_the_machine_after_retraining", g_lifecycle, quick=200, thorough=4000, shard_size=34)
+def c_lifecycle(ctx, case):
+    """A machine that has already scored, and is then re-trained / re-pointed to another UBM / has U changed in
+    place, scores like a FRESH machine holding the same U, V, D and UBM (no state derived from the old parameters)."""
+    import dask.bag as db
+
+    m = sut.make_fa(case, em_iterations=case["em"])
+    probe = [sut.make_stats(s) for s in case["probe"]]
+    model = (case["yy"], case["z"]) if case["jfa"] else case["z"]
+    m.score(model, probe)
+    m.estimate_x(probe)
+    stats = sut.sessions_of(case)
+    y = np.asarray(case["y"])
+    ubm_params = case["ubm"]
+    if case["step"] == "fit":
+        m.fit(stats, y)
+    elif case["step"] == "fit_bag":
+        m.fit(db.from_sequence(stats, npartitions=2), y)
+    elif case["step"] == "ubm":
+        ubm_params = dict(case["ubm"], means=np.array(case["ubm"]["means"]) * 0.8 - 0.3,
+                          variances=np.array(case["ubm"]["variances"]) * 1.9)
+        m.ubm = sut.make_gmm(ubm_params)
+    else:
+        m.U[...] = np.asarray(m.U) * 0.5 + 0.01  # in-place edit of the public attribute
+    ctx.note(True, "jfa" if case["jfa"] else "isv", "step:" + case["step"])
+    fresh_case = dict(case, ubm=ubm_params, U=np.array(m.U), D=np.array(m.D), V=(np.array(m.V) if case["jfa"] else None),
+                      swap_ubm=False)
+    fresh = sut.make_fa(fresh_case)
+    a, b = float(m.score(model, probe)), float(fresh.score(model, probe))
+    want, x, ux, mean = ref_score(dict(fresh_case, y=case["yy"], z=case["z"]), case["probe"])
+    ctx.close(a, b, "score after %s vs fresh machine with the same parameters" % case["step"], rtol=1e-9, atol=1e-12 * (1 + abs(b)))
+    ctx.close(a, want, "score after %s vs reference" % case["step"], rtol=1e-7, atol=1e-9 * (1 + abs(want)))
+    ctx.close(np.asarray(m.estimate_x(probe), float), x, "estimate_x after %s vs reference" % case["step"], rtol=1e-7,
+              atol=1e-9 * (np.abs(x).max() + 1e-300))
